@@ -1,0 +1,128 @@
+//go:build verif
+
+// Verification hooks for the handshake, the ticket store and the receive
+// buffers: compiled only with -tags verif.  Re-exports of unexported
+// functions and read accessors; the one mutator (VerifTicketStoreAge) only
+// rewrites the issue time of a stored ticket so that the expiry branch of
+// getTicket can be reached without waiting a week.
+
+package scramblesuit
+
+import (
+	"errors"
+	"fmt"
+	"net"
+	"sort"
+
+	"gitlab.com/yawning/obfs4.git/common/uniformdh"
+	"gitlab.com/yawning/obfs4.git/transports/base"
+)
+
+// VerifDHHandshake wraps the unexported UniformDH client handshake state.
+type VerifDHHandshake struct {
+	hs *ssDHClientHandshake
+}
+
+// VerifNewDHClientHandshake calls newDHClientHandshake (the padding length is
+// drawn from csrand as usual).
+func VerifNewDHClientHandshake(kB []byte, sessionKey *uniformdh.PrivateKey) (*VerifDHHandshake, error) {
+	if len(kB) != sharedSecretLength {
+		return nil, fmt.Errorf("kB length %d", len(kB))
+	}
+	var ss ssSharedSecret
+	copy(ss[:], kB)
+	return &VerifDHHandshake{hs: newDHClientHandshake(&ss, sessionKey)}, nil
+}
+
+// Generate calls generateHandshake.
+func (v *VerifDHHandshake) Generate() ([]byte, error) { return v.hs.generateHandshake() }
+
+// PadLen returns the padding length chosen for the client handshake.
+func (v *VerifDHHandshake) PadLen() int { return v.hs.padLen }
+
+// EpochHour returns the epoch hour string the handshake was generated with.
+func (v *VerifDHHandshake) EpochHour() []byte { return append([]byte(nil), v.hs.epochHour...) }
+
+// Parse calls parseServerHandshake on resp (the caller owns the growing
+// buffer, exactly as clientHandshake passes receiveBuffer.Bytes()).  The
+// class is "notyet", "invalid", "ok" or "other".
+func (v *VerifDHHandshake) Parse(resp []byte) (n int, seed []byte, class string, err error) {
+	n, seed, err = v.hs.parseServerHandshake(resp)
+	switch {
+	case err == nil:
+		class = "ok"
+	case errors.Is(err, errMarkNotFoundYet):
+		class = "notyet"
+	case errors.Is(err, ErrInvalidHandshake):
+		class = "invalid"
+	default:
+		class = "other"
+	}
+	return
+}
+
+// VerifTicket is one entry of the in-memory ticket store.
+type VerifTicket struct {
+	Addr     string
+	Key      []byte
+	Ticket   []byte
+	IssuedAt int64
+}
+
+func verifStore(cf base.ClientFactory) (*ssTicketStore, error) {
+	f, ok := cf.(*ssClientFactory)
+	if !ok {
+		return nil, fmt.Errorf("not a scramblesuit client factory")
+	}
+	return f.ticketStore, nil
+}
+
+// VerifTicketStoreDump returns the in-memory ticket store sorted by address.
+func VerifTicketStoreDump(cf base.ClientFactory) ([]VerifTicket, error) {
+	s, err := verifStore(cf)
+	if err != nil {
+		return nil, err
+	}
+	s.Lock()
+	defer s.Unlock()
+	var out []VerifTicket
+	for k, t := range s.store {
+		out = append(out, VerifTicket{
+			Addr: k, Key: append([]byte(nil), t.key[:]...),
+			Ticket: append([]byte(nil), t.ticket[:]...), IssuedAt: t.issuedAt,
+		})
+	}
+	sort.Slice(out, func(i, j int) bool { return out[i].Addr < out[j].Addr })
+	return out, nil
+}
+
+// VerifTicketStoreAge moves the issue time of the ticket stored for addr
+// delta seconds into the past (test scaffolding for the expiry branch).  It
+// reports whether a ticket was present.  The file is not rewritten.
+func VerifTicketStoreAge(cf base.ClientFactory, addr string, delta int64) (bool, error) {
+	s, err := verifStore(cf)
+	if err != nil {
+		return false, err
+	}
+	s.Lock()
+	defer s.Unlock()
+	t, ok := s.store[addr]
+	if !ok || t == nil {
+		return false, nil
+	}
+	t.issuedAt -= delta
+	return true, nil
+}
+
+// VerifTicketFileName is the name of the ticket file inside the state dir.
+const VerifTicketFileName = ticketFile
+
+// VerifBufferSizes returns the number of bytes held in the receive buffer
+// and in the decoded payload buffer of a connection returned by Dial.
+func VerifBufferSizes(c net.Conn) (rx int, decoded int, ok bool) {
+	sc, isSS := c.(*ssConn)
+	if !isSS {
+		return 0, 0, false
+	}
+	return sc.receiveBuffer.Len(), sc.receiveDecodedBuffer.Len(), true
+}
